@@ -5,13 +5,16 @@ MCFns == {[file |-> "a", name |-> "f"], [file |-> "a", name |-> "g"], [file |-> 
 
 (* two tracepoints sharing a line, a method span, a line span on a line that may be a function's last, one on a *)
 (* line of another file with the same function name                                                            *)
-MCTps == {[id |-> 1, kind |-> "line",   file |-> "a", name |-> "", line |-> 1, span |-> "none"],
-          [id |-> 2, kind |-> "line",   file |-> "a", name |-> "", line |-> 1, span |-> "line"],
-          [id |-> 3, kind |-> "method", file |-> "a", name |-> "f", line |-> 0, span |-> "method"],
-          [id |-> 4, kind |-> "line",   file |-> "b", name |-> "", line |-> 2, span |-> "none"]}
+(* id 5: a tracepoint on the shared line whose action always fails (e.g. a malformed log template): it must not *)
+(* stop the other tracepoints of the line from acting                                                          *)
+MCTps == {[id |-> 5, kind |-> "line",   file |-> "a", name |-> "", line |-> 1, span |-> "none", faulty |-> TRUE],
+          [id |-> 1, kind |-> "line",   file |-> "a", name |-> "", line |-> 1, span |-> "none", faulty |-> FALSE],
+          [id |-> 2, kind |-> "line",   file |-> "a", name |-> "", line |-> 1, span |-> "line", faulty |-> FALSE],
+          [id |-> 3, kind |-> "method", file |-> "a", name |-> "f", line |-> 0, span |-> "method", faulty |-> FALSE],
+          [id |-> 4, kind |-> "line",   file |-> "b", name |-> "", line |-> 2, span |-> "none", faulty |-> FALSE]}
 
-MCTpsSpans == {[id |-> 2, kind |-> "line",   file |-> "a", name |-> "", line |-> 1, span |-> "line"],
-               [id |-> 3, kind |-> "method", file |-> "a", name |-> "f", line |-> 0, span |-> "method"]}
+MCTpsSpans == {[id |-> 2, kind |-> "line",   file |-> "a", name |-> "", line |-> 1, span |-> "line", faulty |-> FALSE],
+               [id |-> 3, kind |-> "method", file |-> "a", name |-> "f", line |-> 0, span |-> "method", faulty |-> FALSE]}
 MCTpSets == {MCTps}
 MCTpSetsSpans == {MCTpsSpans}
 MCFnsOne == {[file |-> "a", name |-> "f"]}
